@@ -269,6 +269,10 @@ Lemma j_astring_filter pr : just (p_astring_filter o pr). Proof. unfold p_astrin
 Lemma j_date_filter : just (p_date_filter o). Proof. unfold p_date_filter. jds. Qed.
 Hint Resolve j_astring_filter j_date_filter : jdb.
 
+Lemma j_not_loop : just (loop F not_step tt).
+Proof. apply just_loop. intro. unfold not_step. jds. Qed.
+Hint Resolve j_not_loop : jdb.
+
 Lemma j_search_key d : forall pr, just (p_search_key o F d pr).
 Proof.
   induction d as [|d IH]; intro pr; cbn [p_search_key]; [apply just_raise|].
